@@ -59,10 +59,14 @@ Fixpoint rows_ok (pool : list hit) (expected : list hit) (observed : list (list 
   | _, _ => false
   end.
 
+(** observed numbers went through float64 (about 15 significant digits): accept
+    one micro unit plus a relative error of 2^-40 *)
+Definition tol (o : Z) : Z := 1 + Z.abs o / 1099511627776.
+
 Definition statval_ok (e : statval) (o : Z) : bool :=
   match e with
-  | SVal m => Z.leb (Z.abs (m * 1000 - o)) 1
-  | SAvg sm cnt => Z.leb (Z.abs (sm * 1000 - o * cnt)) (Z.abs cnt + 1)
+  | SVal m => Z.leb (Z.abs (m * 1000 - o)) (tol o)
+  | SAvg sm cnt => Z.leb (Z.abs (sm * 1000 - o * cnt)) (Z.abs cnt * tol o + 1)
   end.
 
 Fixpoint stats_ok (expected : keyed (list statval)) (observed : list (list str * list Z)) : bool :=
